@@ -15,7 +15,8 @@ from lib import mirloop as ML
 TECHNIQUE = ("MIR control-flow rules over execute_fsm_pipe_impl and the private helpers it calls (virtual inlining): natural loops classified by the iterated type, "
              "provenance of the loop bound (Interpreter.max_steps), flag-sensitive path exploration of the arm loop with must-call summaries of apply_transitions, "
              "canonical-place comparison of the environments / patterns handed to clear_pattern_bindings and the matcher, MIR dominance of the validation calls over "
-             "the execution call, K6 field-use completeness of the pattern helpers the FSM loop relies on")
+             "the execution call, K6 field-use completeness of the pattern helpers the FSM loop relies on; finite truth table of the argument-kind predicate by concrete evaluation "
+             "of its syntax tree over generated ValueKind values (lib/adteval.py) compared with an oracle, operand-role provenance and variant-sensitive reachability of the gate's outcomes (lib/mirgate.py)")
 EXPLANATION = (
     "Decides structural clauses of C17 (narrow): (R1) the transition loop is a `for` over 0..max_steps whose fall-through is the transition-limit Err, and no "
     "`loop`/`while` is reachable from the FSM executor; (R2) argument-count/kind checks and validate_fsm_state_coverage dominate the call that runs the machine; "
@@ -25,6 +26,11 @@ EXPLANATION = (
     "visited state sequence and payload values (runtime)."
     ' (R5) the FSM arm loop is left (break, continue of the step loop, return of a value) only after a transition was applied.'
     " (R6) each FSM arm is tried against its own scratch environment; (R7) the set the start state and transition targets are validated against is built from the implementation's arms and nothing else."
+    " (R9) argument gate: the truth table of the kind-compatibility predicate called in front of the executor (evaluated from its expanded source over a universe of kinds generated from the "
+    "definition of ValueKind) accepts the declared kind, a reference to it, and another shape / size / kind only where the declaration leaves it open (array without dimensions, set / table "
+    "without size, `*`) and rejects everything else; its operands are the unmodified converted annotation of the declaration (read from the specification's or the implementation's inputs) "
+    "and the kind of the paired argument, its `false` outcome cannot reach the executor, no annotated input bypasses it, and the executor is reachable only for equal numbers of "
+    "declarations and arguments - the table of the source is decided, the run-time behaviour of a machine call is not."
 )
 
 MOD = "mech_interpreter::state_machines::"
@@ -533,7 +539,9 @@ def run(F, rep, tier):
         for ri, rt in run_calls:
             rep.check(any(b.dominates(vi, ri) and vi != ri for vi in vs), "C17-R2", "state-coverage-dominates-execution",
                       "execute_fsm_pipe runs the machine (line %d) without a dominating state coverage validation" % rt["l"], "%s:%d" % (b.file, rt["l"]))
-        ks = guard_sites(eclo, b, re.compile(r"::fsm_argument_kind_matches$"))
+        # the argument kind check is found by ROLE (a crate function `(&ValueKind, &ValueKind) -> bool`), not by its name: renaming it is not a change
+        from rules.c17_gate import kind_predicates, NameSet
+        ks = guard_sites(eclo, b, NameSet(kind_predicates(cg) or {MOD + "fsm_argument_kind_matches"}))
         ok_exits, err_exits = result_exits(b)
         for ri, rt in run_calls:
             good = False
@@ -557,6 +565,8 @@ def run(F, rep, tier):
     c17_state_set_from_arms(F, rep)
     from rules.pattern_arity import length_admissibility
     length_admissibility(F, rep, "C17-R8")
+    from rules.c17_gate import argument_gate
+    argument_gate(F, rep)
 
 
 def unbounded_in(cg, item):
@@ -707,6 +717,11 @@ def validator_checks(F, rep, cg, adts):
 def guard_sites(clo, body, rx, depth=2):
     """blocks of `body` that run the check `rx`: a direct call, or a call of a helper of the closure in which the check can lead to an Err exit"""
     out = []
+    # a closure created here (handed to `try_for_each`, `map(..).collect::<Result<..>>()` ...) that runs the check: the check happens where the closure is used
+    for i, st in body.stmts():
+        cb = clo.fns.get(st.get("closure")) if st.get("closure") else None
+        if cb is not None and any(rx.search(x) for _, t in cb.calls() for x in ML.callee_names(t)):
+            out.append(i)
     for i, t in body.calls():
         if any(rx.search(x) for x in ML.callee_names(t)):
             out.append(i)
